@@ -155,6 +155,12 @@ func (m *RawManager) AddNode(node *RawNode) error {
 		_ = node.close()
 		return fmt.Errorf("config: manager is closed, cannot add node %d (%s)", node.ID(), node.Address())
 	}
+	if other, found := m.lookup[node.id]; found {
+		// Another goroutine has added a node with this ID while this one was connecting
+		// (the check at the top is made before the lock is released for the dial).
+		_ = node.close()
+		return fmt.Errorf("config: node %d (%s) already exists", other.ID(), other.Address())
+	}
 	m.lookup[node.id] = node
 	m.nodes = append(m.nodes, node)
 	return nil
